@@ -76,7 +76,7 @@ func (r *runResult) v(sig, f string, a ...any) {
 
 // Case is the replayable form of every case of this check.
 type Case struct {
-	Part string `json:"part"` // pw | hash | http
+	Part string `json:"part"`          // pw | hash | http
 	Sig  string `json:"sig,omitempty"` // replay files: the violation class this case was recorded for
 	// pw
 	Users int      `json:"users,omitempty"`
